@@ -123,6 +123,10 @@ func runC01(cfg Config, r *Result) {
 			r.Sample(map[string]any{"program": src})
 		}
 	}
+	// precedence / associativity / layout: derivations of the layered grammar as oracle (harness/c01prec.go)
+	rule := r.Rule
+	runC01prec(cfg, r)
+	r.Rule = rule + "; (c) " + r.Rule
 }
 
 func firstLine(s string) string {
